@@ -129,7 +129,7 @@ def run_codec(params, known):
     count = 0
     keys = set()
     samples = []
-    lengths = [0, 1, 255, 256, 4095]
+    lengths = [0, 1, 255, 256, 4095, 65535, 65536, 65537, 70000]     # (the length field is 20 bits wide)
     hint_lists = [(), ((0, b'\x00\x00\x01\x00'),), ((0, b'\x00\x00\x01\x00'), (5, b'')), ((3, b'x' * 255), (9, b'y')),
                   # the same hint more than once (equal first and last, equal neighbours)
                   ((7, b'ab'), (7, b'ab')), ((7, b'ab'), (8, b''), (7, b'ab')), ((8, b''), (7, b'ab'), (7, b'ab'))]
@@ -483,6 +483,117 @@ def run_reassembly(params, known):
     return dict(name=params['name'], evaluations=count, nontrivial_keys=sorted(keys), violations=violations, known=[], samples=samples)
 
 
+def run_send_receive(params, known):
+    '''Real sender to real receiver.  (1) Bundles of 65535 / 65536 / 65537 / 70000 octets with no MTU
+    (one bundle message), an MTU above the bundle and an Ethernet-size MTU; (2) two and three bundles
+    handed to the sender back to back, before its loop has run (lengths below and above the MTU), the
+    frames then reaching the receiver in order, alternating and reversed.  Every frame is decoded
+    independently; transfers in flight at the same time carry different transfer numbers; the
+    receiver announces and returns exactly the bundles sent.'''
+    violations = []
+    kinds = set()
+    count = 0
+    keys = set()
+
+    def viol(kind, detail, case):
+        if kind in kinds:
+            return
+        kinds.add(kind)
+        v = Violation(PROP, 'end-to-end', kind, dict(), '%r: %s' % (case, detail)).as_dict()
+        v['case'] = case
+        violations.append(v)
+
+    def bundle(n, seed):
+        return bytes((i * 13 + seed * 7 + (i >> 8)) & 0xFF for i in range(n))
+    jobs = []
+    for length in (65535, 65536, 65537, 70000):
+        for mtu in (None, 100000, 1500):
+            jobs.append(([length], mtu))
+    for lens in ((30, 45), (200, 450), (450, 200), (450, 30), (120, 450, 300)):
+        for mtu in (100, 1500):
+            jobs.append((list(lens), mtu))
+    for (lens, mtu) in jobs:
+        for order in (('in-order',) if len(lens) == 1 else ('in-order', 'alternating', 'reversed')):
+            count += 1
+            case = dict(lengths=lens, mtu=mtu, arrival=order)
+            snd = BtpuWorld(dict(role='S', mtu=mtu))
+            datas = [bundle(n, k + 1) for (k, n) in enumerate(lens)]
+            ok = True
+            for d in datas:
+                res = snd.call('send_bundle_data', d, {'address': MAC_R, 'local_if': IFNAME})
+                if res[0] != 'ok':
+                    viol('send-call-failed', repr(res), case)
+                    ok = False
+            if not ok:
+                continue
+            snd.run_all()
+            if snd.escaped:
+                viol('exception-escaped-callback', '%s: %s' % (snd.escaped[-1][0], snd.escaped[-1][2]), case)
+                continue
+            frames = [f['frame'] for f in snd.net.frame_log]
+            per_xfer = {}
+            wholes = []
+            try:
+                for (fi, frame) in enumerate(frames):
+                    if mtu is not None and len(frame) - 14 > mtu:
+                        viol('frame-exceeds-mtu', 'MTU %d, frame SDU %d' % (mtu, len(frame) - 14), case)
+                    for (mtype, hints, body) in dec_message_set(frame[14:]):
+                        if mtype == M_BUNDLE:
+                            wholes.append(body)
+                        elif mtype in (M_SEG, M_END):
+                            (xfer, sidx) = struct.unpack('!II', body[:8])
+                            per_xfer.setdefault(xfer, []).append((sidx, mtype, body[8:], fi))
+            except ValueError as err:
+                viol('frame-undecodable', str(err), case)
+                continue
+            rebuilt = list(wholes)
+            for (xfer, segs) in per_xfer.items():
+                idxs = sorted(x[0] for x in segs)
+                if idxs != list(range(len(segs))):
+                    viol('two-transfers-share-a-transfer-number', 'transfer %d carries segment indices %r' % (xfer, idxs), case)
+                rebuilt.append(b''.join(x[2] for x in sorted(segs)))
+            if sorted(rebuilt) != sorted(datas):
+                viol('frames-do-not-carry-the-bundles', 'bundles of %r octets sent, frames carry %r' % (lens, sorted(len(r) for r in rebuilt)), case)
+                continue
+            if max(len(f) for f in frames) > 65535:
+                # larger than the receiver ever reads from its socket (and than any Ethernet frame): only the sender side is judged
+                keys.add('%r/%s/sender-only' % (lens, mtu))
+                continue
+            # delivery to a real receiver
+            seq = list(frames)
+            if order == 'reversed':
+                seq.reverse()
+            elif order == 'alternating':
+                groups = {}
+                for (fi, frame) in enumerate(frames):
+                    owner = next((x for (x, segs) in per_xfer.items() if any(sg[3] == fi for sg in segs)), -1 - fi)
+                    groups.setdefault(owner, []).append(frame)
+                seq = []
+                lists = list(groups.values())
+                while any(lists):
+                    for lst in lists:
+                        if lst:
+                            seq.append(lst.pop(0))
+            rcv = BtpuWorld(dict(role='R'))
+            for frame in seq:
+                rcv.activate(None)
+                rcv.net.inject(IFNAME, frame)
+                rcv.run_all()
+            rcv.run_all(ticks=False)
+            if rcv.escaped:
+                viol('exception-escaped-callback', 'receiver: %s: %s' % (rcv.escaped[-1][0], rcv.escaped[-1][2]), case)
+                continue
+            fins = [sg for sg in rcv.signals if sg[0] == 'recv_bundle_finished']
+            got = []
+            for sg in fins:
+                res = rcv.call('recv_bundle_pop_data', sg[1])
+                got.append(bytes(res[1]) if res[0] == 'ok' else None)
+            if sorted(g or b'' for g in got) != sorted(datas):
+                viol('queued-bundles-differ', 'sent %r octets, receiver returned %r' % (lens, [len(g) if g is not None else None for g in got]), case)
+            keys.add('%r/%s/%s' % (lens, mtu, order))
+    return dict(name=params['name'], evaluations=count, nontrivial_keys=sorted(keys), violations=violations, known=[], samples=[])
+
+
 def run_pop_histories(params, known):
     '''Receive / pop histories: three bundles (each in two segments, in order or reversed) arrive
     one after the other; the user pops any announced and not yet popped bundle at any point.
@@ -564,6 +675,7 @@ def run_pop_histories(params, known):
 def scenarios(tier):
     out = []
     out.append(dict(name='pop-histories', kind='enum', runner='run_pop_histories', params=dict(name='pop-histories'), weight=10))
+    out.append(dict(name='send-receive', kind='enum', runner='run_send_receive', params=dict(name='send-receive'), weight=30))
     for part in range(6):
         name = 'codec-%d/6' % (part + 1)
         out.append(dict(name=name, kind='enum', runner='run_codec', params=dict(name=name, part=part, parts=6), weight=30))
@@ -592,6 +704,7 @@ def scenarios(tier):
 ASSUMPTIONS = [
     'Ethernet frames on a virtual AF_PACKET socket; the MTU bounds the message set carried in one frame',
     'the 1 s transfer timers fire only after the last segment of a delivery (then all of them, in deadline order)',
+    'send/receive: bundles of 65535-70000 octets with no MTU / an MTU above / Ethernet size, and two or three bundles handed over back to back, frames arriving in order, alternating and reversed',
     'reassembly: 3-5 segments of two octets each, all permutations; a second two-segment transfer slipped in at every pair of positions, in both orders',
 ]
 
